@@ -183,7 +183,8 @@ def deliveredTo (tag : String) : StepOut → Bool
 /-- the caller of `tag` has had its result -/
 def ReadDone (c : Conn) (tag : String) : Prop := ∃ r, getReq c tag = some r ∧ r.read = true
 
-theorem afterWrites_out (c : Conn) (fs : List OutFrame) : (afterWrites c fs).2 = .frames fs ∨ (afterWrites c fs).2 = .dead := by
+theorem afterWrites_out (c : Conn) (fs : List OutFrame) :
+    (afterWrites c fs).2 = .frames (wireFrames c fs) ∨ (afterWrites c fs).2 = .dead := by
   rcases afterWrites_cases c fs with ⟨e, s, b, hh⟩ | ⟨e, s, hh⟩
   · rw [hh]; exact .inl rfl
   · rw [hh]; exact .inr rfl
